@@ -194,7 +194,7 @@ def _standins(vc):
               "controller runs with integer and float constant-Q models (PQVArea4120V2, machine arithmetic of the in-place writes); the Q(V) "
               "characteristics of the built-in areas at their own break points",
         script="import sys\nfrom replaylib.der import main, main_more\n"
-               "for f in (main, main_more):\n    try:\n        f()\n    except SystemExit as e:\n        if e.code:\n            raise\n",
+               "from replaylib import run_all\nrun_all(main, main_more)\n",
         timeout=1200))
 
 
